@@ -495,6 +495,10 @@ func init() {
 		upkg + ".verifOwn":        func(in *Interp, fn *ssa.Function, args []Value) Value { in.own(args[0], args[1].(Str).s); return nil },
 		upkg + ".verifCheckOwned": func(in *Interp, fn *ssa.Function, args []Value) Value { in.checkOwned(args[0].(Str).s); return nil },
 		upkg + ".verifTrackStart": func(in *Interp, fn *ssa.Function, args []Value) Value { in.trackStart(args[0].(Str).s); return nil },
+		upkg + ".verifTrackStartObj": func(in *Interp, fn *ssa.Function, args []Value) Value {
+			in.trackStartObj(args[0].(Str).s, args[1])
+			return nil
+		},
 		upkg + ".verifTrackStop":  func(in *Interp, fn *ssa.Function, args []Value) Value { in.trackStop(); return nil },
 		upkg + ".verifMapReverse": func(in *Interp, fn *ssa.Function, args []Value) Value {
 			in.mapReverse = args[0].(*Term).IsTrue()
